@@ -622,7 +622,7 @@ func stripForOldSpec(f gen.M) {
 // orchestration
 
 func (p *c09) RunCustom(o *fw.Orchestrator) {
-	race := filepath.Join(o.Root, ".build", "vcheck-race")
+	race := filepath.Join(o.Root, ".build", "vcheck-race"+os.Getenv("VERIF_BIN_SUFFIX"))
 	if _, err := os.Stat(race); err != nil {
 		o.Inconclusive("race-detector binary missing: " + err.Error())
 		return
